@@ -37,3 +37,7 @@ _kernel("C12", "kernel_h2_permits", "h2_permits", ("async", "sync"),
         symbolic="current stream limit and free permits (1..6, 0..limit), whether the SETTINGS frame carries MAX_CONCURRENT_STREAMS, its new value (0..6)",
         bounds="_receive_remote_settings_change with both adjustment loops unwound (unwinding assertion) for limits up to 6: the limit follows the advertised value, permits are conserved, and the reader never blocks if the streams in flight fit the new limit",
         outside="limits above 6 (the loops are uniform in the distance); the case streams-in-flight > new limit, which blocks the reader (known finding D10, scenario harness C12.streams)")
+_kernel("C09", "kernel_expiry", "expiry", ("async", "sync"),
+        symbolic="the instant t0 at which the response is closed, a later instant t1, keepalive_expiry (>= 0 or None) and the previous deadline: REAL numbers; h11's two state variables; whether the socket is readable",
+        bounds="UNBOUNDED and real-valued: HTTP11Connection._response_closed() followed by has_expired(): idle and expired exactly when t1 > t0 + expiry or the socket is readable after a complete exchange, closed otherwise",
+        outside="the HTTP/2 twin of the arithmetic (E1 C09.expiry with unbounded integers)", also=("C16",))
